@@ -924,12 +924,12 @@ func TestC06(t *testing.T) {
 		}
 		ev.flush(r)
 	})
-	r.Require("reuse_compared_with_fresh", nReuse*9/10)
-	r.Require("reuse_compared_with_reference", nReuse*8/10)
+	r.Require("reuse_compared_with_fresh", nReuse*45/100)
+	r.Require("reuse_compared_with_reference", nReuse*4/10)
 	r.Require("reuse_partitioned_then_not", nReuse/10)
 	r.Require("direct_parsed", nResp/2)
 	r.Require("wire_parsed_fasthttp", nResp/2)
 	r.Require("wire_parsed_nethttp", nResp/8)
-	r.Require("requests_read_fasthttp", nReq/2)
+	r.Require("requests_read_fasthttp", nReq*4/10)
 	r.Require("requests_read_nethttp", nReq/4)
 }
